@@ -492,6 +492,9 @@ func (fr *frame) visitCheck(e *Engine, in ssa.Instruction) {
 	}
 	fr.visits[in]++
 	if fr.visits[in] > e.unwind {
+		if e.unwindPrune {
+			e.end("prune", "assumed unwinding bound reached")
+		}
 		e.end("unwind", "unwinding bound %d exceeded", e.unwind)
 	}
 }
